@@ -142,10 +142,10 @@ theorem step_domInv (s : Inst) (op : Op) (h : DomInv s) : DomInv (step s op).1 :
   | atts c items f => exact signAtts_domInv h c items f []
   | prop c a d f => exact signProp_domInv h c a d f false
   | sign c ip a d =>
-    have fr := signGeneric_frame s c ip a d false
+    have fr := signGeneric_frame s c ip a d false false
     exact ⟨by simp only [step]; rw [fr.2.1]; exact h.att, by simp only [step]; rw [fr.2.2]; exact h.prop⟩
   | msign c ip items =>
-    have fr := multisign_frame s c ip items []
+    have fr := multisign_frame s c ip items [] false
     exact ⟨by simp only [step]; rw [fr.2.1]; exact h.att, by simp only [step]; rw [fr.2.2]; exact h.prop⟩
   | restart => exact h
   | importRec k r => exact ⟨h.att, h.prop⟩
